@@ -3,7 +3,7 @@
 use std::collections::{BTreeMap, BTreeSet};
 
 use crate::cell::{Chk, OChk};
-use crate::driver::{SessKind, SessionRec};
+use crate::driver::SessionRec;
 use crate::log::{Ev, Kind, TrkEv, Verdict, Via, TM};
 use crate::prog::Program;
 use crate::refm::RefRun;
